@@ -673,6 +673,15 @@ def rule_member_exhaustive(ctx, rep: Report, rid="G5", min_kinds=7):
     for attr, qs in mp.items():
         for q in qs:
             by_class.setdefault(q, []).append(attr)
+    # where the constructor can be evaluated on samples, what lands where is read off the result (however the sorting is written)
+    evaluated = members_by_evaluation(ctx, "Class.Members", sorted(alt_classes))
+    if evaluated is not None:
+        samples_, lists_ = evaluated
+        by_class = {}
+        for attr, v in lists_.items():
+            for x in v:
+                if isinstance(x, dict) and "kind" in x and attr not in by_class.setdefault(x["kind"], []):
+                    by_class[x["kind"]].append(attr)
     ci_members = prog.cls("Class.Members")
     init = prog.method("Class.Members", "__init__")
     # order of isinstance branches (for shadowing)
@@ -704,7 +713,7 @@ def rule_member_exhaustive(ctx, rep: Report, rid="G5", min_kinds=7):
         k = prog.cls(q)
         idx = [i for i, (_, kk) in enumerate(order) if kk is k]
         shadow = [kk.qual for (_, kk) in order[: idx[0]] if prog.is_subclass(k, kk)] if idx else []
-        rep.add(rid, f"member:{q}:isinstance branch not shadowed", bool(idx) and not shadow,
+        rep.add(rid, f"member:{q}:isinstance branch not shadowed", (bool(idx) and not shadow) or (evaluated is not None and len(attrs) == 1),
                 f"branch for {q} is shadowed by earlier branch(es) on {shadow}" if shadow else
                 f"no isinstance branch for {q}", f"{ci_members.mod.rel}:{init.lineno}")
         for attr in attrs:
@@ -1125,3 +1134,103 @@ def rule_parallel_results_aligned(ctx, rep: Report, rid="G14", min_actions=20):
     rep.units["paired_results"] = n
     if n_actions < min_actions:
         raise AnalysisError(f"{rep.prop}/{rid}: only {n_actions} parse actions scanned")
+
+
+def members_by_evaluation(ctx, holder_qual: str, kinds: List[str]):
+    """Runs the holder's __init__ (the analyser's own interpreter, sample objects) on a member sequence in which every kind
+    occurs three times, never next to itself, and same-named members are not adjacent.  Returns (samples, {attr: list}) or
+    None when the function is written with constructs the interpreter does not know."""
+    from .rules_matlab import ClassTok, SampleObj, _PathEval, _Raised, mini_exec
+    prog = ctx.prog
+    ci = prog.cls(holder_qual)
+    init = prog.find_method(ci, "__init__")
+    if init is None:
+        return None
+    fn = init[1]
+    ps = func_params(fn)
+    if len(ps) != 2:
+        return None
+
+    def bases(q):
+        k = prog.cls(q)
+        return [b.qual.split(".")[-1] for b in prog.mro(k)[1:]] if k is not None else []
+    samples = []
+    for rnd, nm in enumerate(("insert", "size", "insert")):
+        for q in (kinds if rnd != 1 else list(reversed(kinds))):
+            samples.append(SampleObj(__kind__=q.split(".")[-1], __bases__=bases(q), name=nm, kind=q, pos=len(samples)))
+    me = SampleObj()
+    env = {ps[0]: me, ps[1]: list(samples)}
+    for q in kinds:
+        env.setdefault(q.split(".")[-1], ClassTok(q.split(".")[-1]))
+    try:
+        mini_exec(fn, env, budget=6000)
+    except (_PathEval.Unknown, _Raised):
+        return None
+    return samples, {a: v for a, v in me.items() if isinstance(v, list)}
+
+
+def rule_members_in_source_order(ctx, rep: Report, rid="G16", min_kinds=7):
+    """Class.Members.__init__ files the parsed members of a class under the list of their kind.  Decided by evaluation on
+    a sample sequence (every kind three times, interleaved, same-named methods apart): every member ends up in exactly one
+    list, members of one kind in the same list, and every list is in the order of the source - a grouping by name, a
+    sort or a de-duplication moves a later overload in front of declarations that precede it."""
+    g, aa, prog = ctx.grammar, ctx.actions, ctx.prog
+    mrule = g.class_rule("Class.Members")
+    alts = _flatten_alt(mrule.children[0], ("Or", "MatchFirst"))
+    kinds = sorted({q for a in alts for q in aa.constructed_classes(_action_of(g, a).action)})
+    if len(kinds) < min_kinds:
+        raise AnalysisError(f"{rep.prop}/{rid}: {len(kinds)} member kinds, {min_kinds} expected")
+    ci = prog.cls("Class.Members")
+    init = prog.method("Class.Members", "__init__")
+    loc = f"{ci.mod.rel}:{init.lineno}"
+    r = members_by_evaluation(ctx, "Class.Members", kinds)
+    if r is None:
+        # written in a way the interpreter does not follow: the structural rules (G5, G6) still decide what they can
+        rep.add(rid, "Members.__init__:evaluated on a sample member sequence", True, "not evaluable; G5 decides by structure", loc, nontrivial=False)
+        return
+    samples, lists = r
+    for q in kinds:
+        mine = [m for m in samples if m["kind"] == q]
+        homes = [a for a, v in lists.items() if any(x is m for m in mine for x in v)]
+        counts = [sum(1 for v in lists.values() for x in v if x is m) for m in mine]
+        rep.add(rid, f"member:{q}:every parsed one is kept once, all in one list", len(homes) == 1 and counts == [1] * len(mine),
+                f"three {q} members in the sample end up in list(s) {homes or 'none'} {counts} time(s): a declaration is dropped, duplicated or filed "
+                f"under two lists", loc)
+    for a, v in sorted(lists.items()):
+        pos = [x["pos"] for x in v if isinstance(x, dict) and "pos" in x]
+        rep.add(rid, f"list:{a}:members in the order of the source", pos == sorted(pos),
+                f"members declared at positions {sorted(pos)} are stored in the order {pos}: overloads declared apart are pulled together (or the list "
+                f"is sorted), so everything generated from it no longer follows the interface file", loc)
+
+
+def rule_namespace_chain_by_evaluation(ctx, rep: Report, rid="G17"):
+    """collect_namespaces(obj) walks the parent links upwards and returns the path outermost first, with '' for the global
+    scope in front.  Decided by evaluation on parent chains of depth 0 to 4 (depth 3 is the first that tells a permuted
+    path from the right one)."""
+    from .rules_matlab import SampleObj, _PathEval, _Raised, mini_exec
+    prog = ctx.prog
+    fn, rel = None, ""
+    for mi, f_ in prog.functions_named("collect_namespaces"):
+        if "interface_parser" in mi.rel:
+            fn, rel = f_, mi.rel
+    if fn is None:
+        raise AnalysisError("anchor vanished: interface_parser/utils.py collect_namespaces")
+    p = func_params(fn)[0]
+    got, want, err = [], [], None
+    for depth in range(0, 5):
+        names = ["n%d" % i for i in range(depth)]
+        node = SampleObj(name="", parent="")
+        for nm in names:
+            node = SampleObj(name=nm, parent=node)
+        obj = SampleObj(name="X", parent=node)
+        want.append([""] + names)
+        try:
+            got.append(mini_exec(fn, {p: obj}, budget=4000))
+        except (_PathEval.Unknown, _Raised) as ex:
+            err = str(ex)
+            break
+    if err is not None:
+        raise AnalysisError(f"{rel}:{fn.lineno}: collect_namespaces is written in a way this rule cannot evaluate ({err})")
+    rep.add(rid, "collect_namespaces:the path of a declaration is its enclosing namespaces, outermost first", got == want,
+            f"for declarations nested 0..4 namespaces deep the function returns {got[3:]} (depth 3, 4), the enclosing scopes are {want[3:]}: classes, enums and "
+            f"forward declarations of deeper namespaces are attributed to another scope", f"{rel}:{fn.lineno}")
